@@ -287,7 +287,8 @@ _ADDED = {
            "write raise (every j, serial and pool): data then offered as complete must have all its files and rows.",
     "C04": " An inlined-savers family injects the fault inside the pool worker process that writes the chunk (write, rename, "
            "per-chunk metadata; exception or death of the worker) and at every parent-side event; the state oracle also "
-           "looks at the directory through a read-only frontend.",
+           "looks at the directory through a read-only frontend; paced runs (first chunk slow, last chunk late) let the "
+           "failed task finish before the source plugin ends (F31).",
     "C06": " Further stages: chunk write failing on a pool worker thread; plugin computation or inlined saver failing inside a "
            "pool worker process; a 40-chunk source that must stop after the failure; multi-output plugins computed in the "
            "pool with the target on the first or on the second output; a multi-output plugin declaring its own buffer size.",
